@@ -387,9 +387,24 @@ func copyDir(src, dst string) {
 
 func tmplDir(kind string, l layT) string { return filepath.Join(scratch, "tmpl", kind+l.String()) }
 
+// senderPartIDSkip: the sender's part-id counter before the template part is written. The part id alphabet over the
+// layouts is {1, 26 = 0x1a, 16 = 0x10}: an id that reads the same in decimal and in the hex directory name, one whose
+// hex name has a letter (not parseable as decimal), one whose hex name is the decimal notation of ANOTHER id (round 2,
+// class of seeded C17-6: the part is named by id in FailedPart entries, part directories, failed-parts/<name>_core).
+func senderPartIDSkip(l layT) uint64 {
+	switch {
+	case l.Big:
+		return 15
+	case l.NF > 1:
+		return 25
+	}
+	return 0
+}
+
 func buildTemplates(l layT) {
 	nf := l.NF
 	s := measure.V17Open(tmplDir("snd", l), nf)
+	s.SkipPartIDs(senderPartIDSkip(l))
 	s.Write(senderRows(l))
 	s.Flush()
 	s.Close()
